@@ -1,18 +1,18 @@
 SPECIFICATION Spec
 CONSTANTS
-  Members = {1, 2, 3, 4}
-  Initial = {1, 2, 3, 4}
-  MinSize = 2
+  Members = {1, 2, 3}
+  Initial = {1, 2}
+  MinSize = 1
   MaxSize = 2
   MinL = 1
-  MaxL = 3
+  MaxL = 4
   SC = 2
   MaxOut = 2
-  MaxOpens = 4
+  MaxOpens = 3
   Jitter = TRUE
   Dynamic = TRUE
-  EnvBudget = 1
-  FlipStates = {"Closed"}
+  EnvBudget = 2
+  FlipStates = {"Open", "Closed"}
   SteadyK = 0
   ChurnGetFirst = FALSE
 CONSTRAINT Bounded
